@@ -73,7 +73,7 @@ func RunLedger(property string, tier Tier, profiles []*explore.Profile, require 
 	var perProfile []map[string]interface{}
 	var samples []interface{}
 	// second pass: the same profiles one level shallower over token identifiers of realistic shape
-	// and length (FNGB-a1b2c3, SFTCOLL-0a0b0c, ...; the aliasing pair is then F||01)
+	// and length (COLLECT-a1b2c3, COLLECTION-0a0b0c, COLLECTION-0a0b0d, the unissued prefix COLLECTION-0a0b; the aliasing pair is then F||01)
 	type pass struct {
 		long bool
 		p    *explore.Profile
